@@ -10,6 +10,7 @@ import (
 	"fmt"
 	"math/rand"
 	"os"
+	"os/exec"
 	"path/filepath"
 	"sort"
 	"strings"
@@ -454,5 +455,8 @@ func RemoveAll(p string) {
 		}
 		return nil
 	})
-	os.RemoveAll(p)
+	if err := os.RemoveAll(p); err != nil {
+		// trees nested deeper than the descriptor limit (a hostile archive can name thousands of levels)
+		exec.Command("rm", "-rf", p).Run()
+	}
 }
